@@ -8,6 +8,7 @@ TRUST = ('trusted base: rustc nightly type-checked MIR (mir-opt-level=0) of /rep
          'rule library under rules/ (incl. rules/normalize.py, which renames moved/renamed functions back to their reviewed paths and inlines helpers the reviewed tree does not know before rules run; audit/functions.json); user closures, FromStr impls and third-party Parser impls are assumptions. ')
 
 def C(technique, text, ref, note='', category='other'):
+    text = text + ' The complete, current list of rule groups (several were added after this summary was written: builder wiring table, who-may-call registries, shared clauses of neighbouring properties) is DESIGN.md Appendix E, generated from the rule modules.'
     return dict(technique=technique, text=text, ref=ref, note=TRUST + note, category=category)
 
 CLAIMED = {
@@ -37,7 +38,7 @@ CLAIMED = {
  'C06': C('enum->bool table extraction, construction-site context rule (control dependence on consumer success edges), decision tables of the wrappers by abstract evaluation, error-discipline census',
    'Decides: can_catch partitions the 17 Message variants as the property states; a variant built after a consumer succeeded is final; fallback/fallback_with/hide/parse_option decision tables '
    '(per variant x catch x consumed) default only for the absence class and return the same error otherwise; repetition loops stop on failure; conversion/guard text is carried into the rendered message. '
-   'Does NOT decide which error survives a particular nesting in alternatives.', 'DESIGN.md sections 0, 5 and Appendix E, C06'),
+   'Known finding: the retry of an adjacent command replaces a final conversion failure of its first run (text lost, run still fails). Does NOT decide which error survives a particular nesting in alternatives.', 'DESIGN.md sections 0, 5 and Appendix E, C06'),
  'C07': C('fork-isolation provenance, decision table of this_or_that_picks_first by abstract evaluation over (depth x err_a x err_b x tie x winner), ItemState tables + who-may-inspect census, macro witness',
    'Decides: both alternatives run exactly once on distinct clones; the 14-row adopt-one table (which fork is swapped into the caller state, result, conflicts saved; ties to the first, deeper fork first); '
    'the boolean selects the matching value; pick_winner scans forward over the ledgers only and reports its own side at the first mismatch; conflict-marked items stay present and only the listed functions '
@@ -81,11 +82,11 @@ CLAIMED = {
  'C16': C('taint chain through both HTML replacements, per-Block tag tables from decoded constants, BlockStart/BlockEnd pairing by must-pass-through, escaper arm tables (byte tests) and line-start guard control dependence, interprocedural constant-argument census for unescaped roff source, section-walk rules',
    'Decides (docgen builds): the only dynamic text render_html appends is a chunk escaped for both < and >; tags opened per Block are closed by its BlockEnd arm and change_style nests correctly; every BlockStart is closed on all paths; '
    'the roff Spaces rule neutralises space AND newline, the Special rules write \\& at line start before . or \', at_line_start is tracked; unescaped roff source is constant at every call site; extract_sections records the level and '
-   'descends into every HelpItem::Command of the raw item list; html/markdown/manpage reuse the --help pipeline; render_roff clears its header-capture flag and flushes on every path of the end arm of each block kind that sets it; payload cursors advance exactly once per text token. Does NOT decide full roff/markdown correctness.', 'DESIGN.md sections 0, 5 and Appendix E, C16'),
+   'descends into every HelpItem::Command of the raw item list; html/markdown/manpage reuse the --help pipeline; render_roff clears its header-capture flag and flushes on every path of the end arm of each block kind that sets it; payload cursors advance exactly once per text token; the rule for request arguments neutralises backslashes (found and fixed 8661d4e); inline styles are closed before block tags; text arms write no block tags. Does NOT decide full roff/markdown correctness.', 'DESIGN.md sections 0, 5 and Appendix E, C16'),
  'C17': C('translation validation: canonical MIR terms of the derive-generated function vs the documented hand-written equivalent, over a base family plus a VERIF_SEED-generated family',
    'For each family member the function generated by the current bpaf_derive and the combinator function prescribed by the documented rules (independent model, witness/derive_family/gen.py) are compiled and reduced to canonical '
    'terms (resolved callees with generic arguments, constants, aggregate shapes, closure statement shapes; order-insensitive builder chains folded). Equal terms => same parser value => identical outcome on every argv. '
-   '23 base members (one per rule/annotation, incl. naming annotations on unit variants, non-ASCII field names, doc comments with long gaps, parser-mode annotations) + 30 (quick) / 300 (thorough) seeded members. Definitions outside the family are not covered; the macro runs at compile time on the witnesses, nothing of bpaf is executed.', 'DESIGN.md sections 0, 5 and Appendix E, C17',
+   '29 base members (one per rule/annotation, incl. naming annotations on unit variants, non-ASCII field names, doc comments with long gaps, parser-mode annotations) + 30 (quick) / 300 (thorough) seeded members. Definitions outside the family are not covered; the macro runs at compile time on the witnesses, nothing of bpaf is executed.', 'DESIGN.md sections 0, 5 and Appendix E, C17',
    category='translation_validation'),
  'C18': C('who-may-call census incl. fn-item references, name provenance, precedence by edge-restricted reachability, single-conversion join',
    'Decides: std::env is used only at the listed sites with names from the declared env list; the flag/argument consumers consult the command line on every path and the environment only on '
